@@ -432,6 +432,9 @@ PURE_CALLS = {'coap_log_impl', 'coap_get_log_level', '__assert_fail', 'memcmp', 
               'coap_ticks', 'coap_address_equals', 'coap_string_equal_internal', 'coap_binary_equal_internal'}
 
 
+CONST_PARAMS = {}      # function name -> indexes of parameters declared `const T *` (filled by Prog)
+
+
 def apply_generic(ev, env, R=None):
     """generic transfer for assignments / ++ / -- / declarations / calls: kills, constants, aliases.
     R: if given, the set of access paths worth recording facts for (others are only killed)."""
@@ -491,10 +494,13 @@ def apply_generic(ev, env, R=None):
         if fn in PURE_CALLS:
             return env
         e = None
-        for arg in t.get('a', []):
+        cpar = CONST_PARAMS.get(fn, ())
+        for ai, arg in enumerate(t.get('a', [])):
             x = strip(arg)
             if not isinstance(x, dict):
                 continue
+            if ai in cpar:
+                continue          # handed to a `const T *` parameter: the callee cannot write through it
             if x.get('k') == 'un' and x.get('op') == '&':
                 a = ap(x['e'])
                 if a:
